@@ -211,6 +211,15 @@ class RuleSpec:
         self.anything = False
         self.obj_after_anything = False
         self.bad = None  # first definitely-bad call (object before subject)
+        # An evaluation of a rule that uses the alias may rewrite the stored specification
+        # (the alias is expanded in place).  What later calls mean after that is not
+        # specified, so from then on only the verb rule is judged.
+        self.maybe_converted = False
+
+    def applied(self):
+        """An evaluation was attempted in the current state."""
+        if self.anything:
+            self.maybe_converted = True
 
     def state_key(self):
         return "%s|s%d|o%d|%s|i%s|a%d%d" % (
@@ -265,6 +274,8 @@ class RuleSpec:
             return INCOMPLETE, "missing-" + "+".join(missing)
         if "should_not" in self.verbs and len(self.verbs) > 1:
             return CONTRADICTORY, "should_not-with-other-verb"
+        if self.maybe_converted:
+            return AMBIGUOUS, "re-evaluated-after-alias-expansion"
         if self.anything and self.obj_after_anything:
             return AMBIGUOUS, "explicit-object-after-anything"
         if self.anything and self.verbs != {"should_not"}:
@@ -291,11 +302,14 @@ def filters_undefined(filters, modules):
             if v not in modset:
                 bad.append((kind, v))
         elif kind == "have_name_matching":
+            # weakest reading: a pattern is "matching nothing" only if it is found nowhere in
+            # any module name (so match / search / fullmatch semantics all agree)
             rx = re.compile(v)
-            if not any(rx.match(m) for m in modules):
+            if not any(rx.search(m) for m in modules):
                 bad.append((kind, v))
         elif kind == "have_name_containing":
-            if not any(partial_name_matches(v, m) for m in modules):
+            core = v.strip("*")
+            if not any(core in m for m in modules):
                 bad.append((kind, v))
     return bad
 
@@ -316,6 +330,11 @@ class LayerRuleSpec:
         self.obj_after_any = False
         self.bad = None
         self.second_subject = False
+        self.maybe_converted = False
+
+    def applied(self):
+        if self.any:
+            self.maybe_converted = True
 
     def call(self, m, args=()):
         if m == "based_on":
@@ -337,6 +356,7 @@ class LayerRuleSpec:
             self.any = False
             self.obj_after_any = False
             self.second_subject = False
+            self.maybe_converted = False
             return None
         if not self.started:
             # Wiped by the layers_that() that must follow; if none follows the chain is
@@ -391,6 +411,8 @@ class LayerRuleSpec:
             return INCOMPLETE, "missing-" + "+".join(missing)
         if "should_not" in self.verbs and len(self.verbs) > 1:
             return CONTRADICTORY, "should_not-with-other-verb"
+        if self.maybe_converted:
+            return AMBIGUOUS, "re-evaluated-after-alias-expansion"
         if self.second_subject:
             return AMBIGUOUS, "two-subject-layers"
         if self.any and self.obj_after_any:
@@ -452,7 +474,9 @@ class DiagramSpec:
 
 def entry_point_bad(kw, module_below_root):
     """C13 entry-point options: returns a reason if the request is contradictory."""
-    if kw.get("regex_exclusions") and kw.get("exclusions", ("*__pycache__*",)):
+    # only what the caller wrote counts: regex_exclusions next to the *default* exclusions is
+    # rejected by the code too, but the property only names mutually exclusive options
+    if kw.get("regex_exclusions") and kw.get("exclusions"):
         return "both-exclusion-kinds"
     if kw.get("regex_external_exclusions") and kw.get("external_exclusions"):
         return "both-external-exclusion-kinds"
